@@ -897,7 +897,7 @@ def fixtures():
     out.append([('name', 'M'), ('initial', 'Idle'), ('dynamic', True),
                 ('states', [('leaf', 'Idle', None), ('leaf', 'Any', 'D0'), ('super', 'All', None, [('leaf', 'Same', None), ('leaf', 'Different', 'D1')]), ('leaf', 'Done', None)]),
                 ('events', [_ev('finish', _tr(['Any'], 'Done')), _ev('matched', _tr(['Idle', 'Different'], 'Same')),
-                            _ev('pick', _tr(['Idle'], 'Any'), _tr(['All'], 'Idle')), _ev('split', _tr(['Same'], 'Different'))])])
+                            _ev('pick', _tr(['Idle'], 'Any')), _ev('regroup', _tr(['All'], 'Idle')), _ev('split', _tr(['Same'], 'Different'))])])
     # a superstate and a leaf whose names glue to the same string as another pair: "Power"+"OnHold" = "PowerOn"+"Hold"
     # (and "Power"+"On"... : a key made of an ancestor and a leaf must keep them apart)
     out.append([('name', 'M'), ('initial', 'Off'), ('dynamic', True),
